@@ -4,7 +4,8 @@
 From Coq Require Import String List NArith.
 From CMinx Require Import Base.Str Model.Lexer Model.Parser Model.Writer Model.DocTypes
      Model.Aggregator Spec.EntrySpec Gen.SourceLiterals Proofs.LexerFacts Proofs.ParserFacts
-     Proofs.EntryFacts Proofs.LiteralsMatch.
+     Proofs.EntryFacts Proofs.LiteralsMatch
+     Base.PySem Gen.PySource Proofs.SourceMatch.
 Import ListNotations.
 
 (* set(): UNSET / str / list by the number of values; default = the value as written, a quoted
@@ -87,3 +88,20 @@ Theorem C10_doctype_literals_pinned :
   = [s"data"; F; s"Default value"; vartype_text VString; vartype_text VList; vartype_text VUnset; s"type"].
 Proof. exact variable_doc_literals. Qed.
 Print Assumptions C10_doctype_literals_pinned.
+
+(* ---- tie by translation: Gen/PySource.v is regenerated from the CURRENT Python source by
+   translators/py2coq.py (statement-by-statement rendering of the function into Gallina over the
+   combinators of Base/PySem.v); the model function is proved equal to it for all arguments ---- *)
+Theorem C10_variable_process_matches_source :
+  forall w name doc ty value,
+    PySource.VariableDocumentation_process w [] name doc (inl (var_type_of ty)) value
+    = Some (w_add w (render_entry (EVariable name doc ty value))).
+Proof. exact variable_process_matches_source. Qed.
+Print Assumptions C10_variable_process_matches_source.
+
+Theorem C10_option_process_matches_source :
+  forall w name doc value help,
+    PySource.OptionDocumentation_process w [] name doc (inr (s"bool")) value help
+    = w_add w (render_entry (EOption name doc value help)).
+Proof. exact option_process_matches_source. Qed.
+Print Assumptions C10_option_process_matches_source.
